@@ -228,8 +228,9 @@ fn walk_ops(d: &Desc, t: &TNode, path: &mut Vec<usize>, thorough: bool, top: boo
         al.retain(|v| seen.insert(v.clone()));
         for v in al {
             out.push(PathOp { path: path.clone(), op: Op::Assign(v.clone(), Kind::Iter) });
+            // literal kind = flat_vec! / FromArray for short vectors: a different library emplacer
+            out.push(PathOp { path: path.clone(), op: Op::Assign(v.clone(), Kind::Literal) });
             if thorough {
-                out.push(PathOp { path: path.clone(), op: Op::Assign(v.clone(), Kind::Literal) });
                 out.push(PathOp { path: path.clone(), op: Op::Assign(v, Kind::Grow) });
             }
         }
